@@ -354,13 +354,22 @@ func (repo *BlockRepository) Revert(ctx context.Context, height int) error {
 		return errors.New(fmt.Sprintf("Revert height %d above current height %d", height, repo.height))
 	}
 
-	// Revert heights map
+	// The stored copy of the newest file can be missing or behind the headers held in memory
+	// (it is only written on Save). Everything below works on the stored files, so bring it up
+	// to date first.
+	if err := repo.save(ctx); err != nil {
+		return errors.Wrap(err, "Failed to save before revert")
+	}
+
+	// Collect the hashes to remove from the heights map. They are only removed when the revert
+	// succeeded.
+	removedHashes := make([]bitcoin.Hash32, 0, repo.height-height)
 	for removeHeight := repo.height; removeHeight > height; removeHeight-- {
 		hash, err := repo.getHash(ctx, removeHeight)
 		if err != nil {
 			return errors.Wrap(err, "Failed to revert block heights map")
 		}
-		delete(repo.heights, *hash)
+		removedHashes = append(removedHashes, *hash)
 	}
 
 	// Height of last block of latest full file
@@ -404,6 +413,9 @@ func (repo *BlockRepository) Revert(ctx context.Context, height int) error {
 		repo.lastHeaders = append(repo.lastHeaders, header)
 	}
 	repo.height = height
+	for _, hash := range removedHashes {
+		delete(repo.heights, hash)
+	}
 	return nil
 }
 
